@@ -1,27 +1,62 @@
-/* note_mix (C08, C09): a parent - child - grandchild family (plus a sibling) of nsync_notes with assorted deadlines;
+/* note_mix (C08, C09, C03): a parent - child - grandchild family (plus a sibling) of nsync_notes with assorted deadlines;
    threads notify, poll, wait on, create children of and free DIFFERENT notes (each note is freed only by the
    single thread that uses it, after the threads using it are done -- the documented contract).
    FAMILY 0: notify(P) | free(C) [C has child G] | poll/wait G | new child under P
    FAMILY 1: notify(C) | notify(C) | free(P)                      (two notifiers of one note; the F4 shape)
    FAMILY 2: deadlines only: P expires, waiters on C and G, pollers
+   FAMILY 3: two notifiers of C while a third thread keeps P's lock busy
+   FAMILY 4: new children (created, observed and possibly freed by ONE creator thread) under C and G while an ancestor is being
+             notified and / or freed: notify(P) | creator {C,G} | poll/wait G;  notify(P) | free(C) | creator {G};
+             free(P) | notify(C) | creator {C,G}
    Oracles: arena/UAF (runtime), stuck detector (runtime), per-note observation history is monotone,
-   notify(n) returns with n notified, at the end every live descendant of a notified note is notified,
-   a notified note has a cause (notify started on it or a creation-time ancestor, or a deadline reached),
-   nsync_note_expiry = min of the deadlines on the creation path (a notified parent counts as zero). */
+   notify(n) returns with n notified, a notified note has a cause (notify started on it or a creation-time ancestor, or a deadline
+   reached),
+   completeness: is_notified / wait must report "notified" when, BEFORE the call started, the note had been observed notified, an
+     nsync_note_notify of it had returned, an nsync_note_notify of a creation-path ancestor had returned with no notification of
+     that ancestor or of its ancestors in progress, or a deadline on its creation path had passed (for a timed wait also: before
+     the wait's own deadline),
+   when nsync_note_notify (n) has returned and no notification of n or of an ancestor is in progress, every live descendant (that no
+     thread may be freeing) is notified; at the end every live descendant of a notified note is notified,
+   nsync_note_expiry = min of the deadlines on the creation path, computed from the deadlines the harness passed; both readings of
+     "a notified parent" (its deadline as given / zero) are accepted; it never exceeds the parent's and never changes,
+   C03: every notifier writes a plain payload before nsync_note_notify; an observer that sees a note notified whose only possible
+     cause is that call reads it (the runtime's happens-before detector judges the pair). */
 #include "nsync.h"
 #include "vrt.h"
 #include <stdio.h>
 #include <string.h>
 #include <stdint.h>
 
-enum { P = 0, C = 1, G = 2, S = 3, NEWC = 4, NN = 5 };
+enum { P = 0, C = 1, G = 2, S = 3, NEWC = 4, NEW2 = 5, NN = 6 };
 static nsync_note note[NN];
-static int parent_of[NN] = { -1, P, C, P, -1 };
+static int parent_of[NN] = { -1, P, C, P, -1, -1 };
 static int64_t dl_of[NN];         /* creation deadline offset, or -1 = none */
+static int freeable[NN];          /* some thread other than its creator frees this note: nobody else may touch it (main only writes) */
+static int fam;
 #define SEEN(i) (30 + (i))        /* observed notified */
 #define NSTART(i) (40 + (i))      /* nsync_note_notify (note[i]) has been called */
 #define FREED(i) (50 + (i))
+#define NDONE(i) (60 + (i))       /* number of nsync_note_notify (note[i]) calls that have RETURNED */
+#define NINPROG(i) (70 + (i))     /* number of nsync_note_notify (note[i]) calls in progress */
+#define FREEING(i) (80 + (i))     /* nsync_note_free (note[i]) is about to be called / has been called */
+#define CREATED(i) (90 + (i))     /* the nsync_note_new that made note[i] has RETURNED */
+#define NWHO(i) (100 + (i))       /* the first thread that called nsync_note_notify (note[i]) */
+#define NSTARTC(i) (110 + (i))    /* number of nsync_note_notify (note[i]) calls started */
+#define POLLING(i) (120 + (i))    /* is_notified / wait calls in progress on note[i]: each may carry out a deadline-driven notification of it */
+#define NDONE_AT(i) (130 + (i))   /* virtual time at which the first nsync_note_notify (note[i]) returned */
+#define NPTR(i) (140 + (i))       /* the pointer of a note made by a thread (slots >= NEWC): other threads read it from here, not from note[] */
 static int64_t ts_ns (nsync_time t) { return (int64_t) t.tv_sec * 1000000000LL + t.tv_nsec; }
+/* note[0..3] are written by main before the threads start; the later slots by their creator thread, which publishes them through a
+   shadow variable (the harness' own data must not take part in the race detection) */
+static nsync_note N (int i) { return i < NEWC ? note[i] : (nsync_note) vrt_sh_get (NPTR (i)); }
+/* ... and, as a real program must, with a release store / acquire load pair (an atomic of the scenario, run by the runtime like the
+   library's own): a thread that uses a note made by another thread is ordered after its creation */
+static uint32_t pub[NN];
+static void publish (int i) { vrt_store (&pub[i], 1, VRT_REL, "note_mix.c", __LINE__); }
+static int published (int i) { return i < NEWC || vrt_load (&pub[i], VRT_ACQ, "note_mix.c", __LINE__) != 0; }
+
+/* C03 payload: payload[i][t] is written by thread t before it calls nsync_note_notify (note[i]) */
+static int payload[NN][12];
 
 /* ---- announcements for the lock-step replay (NoteModel): "call <tid> <op> <note index> [<parent index>] [<deadline ns|none>]", "ret <tid> <value>".
    Note indices are allocation order (= the model's note ids). ---- */
@@ -31,23 +66,27 @@ static void fmt_time (char *b, size_t n, nsync_time t) {
 }
 static int x_is_notified (int i) {
 	int v;
+	vrt_sh_add (POLLING (i), 1);
 	vrt_note ("call %d isn %d", vrt_self (), i);
-	v = nsync_note_is_notified (note[i]);
+	v = nsync_note_is_notified (N (i));
 	vrt_note ("ret %d %d", vrt_self (), v);
+	vrt_sh_add (POLLING (i), -1);
 	return v;
 }
 static void x_notify (int i) {
 	vrt_note ("call %d notify %d", vrt_self (), i);
-	nsync_note_notify (note[i]);
+	nsync_note_notify (N (i));
 	vrt_note ("ret %d -", vrt_self ());
 }
 static int x_wait (int i, nsync_time dl) {
 	char b[32];
 	int v;
 	fmt_time (b, sizeof (b), dl);
+	vrt_sh_add (POLLING (i), 1);
 	vrt_note ("call %d wait %d %s", vrt_self (), i, b);
-	v = nsync_note_wait (note[i], dl);
+	v = nsync_note_wait (N (i), dl);
 	vrt_note ("ret %d %d", vrt_self (), v);
+	vrt_sh_add (POLLING (i), -1);
 	return v;
 }
 static nsync_note x_new (int par, nsync_time dl) {
@@ -55,7 +94,7 @@ static nsync_note x_new (int par, nsync_time dl) {
 	nsync_note n;
 	fmt_time (b, sizeof (b), dl);
 	vrt_note ("call %d new %d %s", vrt_self (), par, b);
-	n = nsync_note_new (par < 0 ? NULL : note[par], dl);
+	n = nsync_note_new (par < 0 ? NULL : N (par), dl);
 	vrt_note ("ret %d %d", vrt_self (), n != NULL);
 	return n;
 }
@@ -63,14 +102,14 @@ static nsync_time x_expiry (int i) {
 	char b[32];
 	nsync_time e;
 	vrt_note ("call %d expiry %d", vrt_self (), i);
-	e = nsync_note_expiry (note[i]);
+	e = nsync_note_expiry (N (i));
 	fmt_time (b, sizeof (b), e);
 	vrt_note ("ret %d %s", vrt_self (), b);
 	return e;
 }
 static void x_free (int i) {
 	vrt_note ("call %d free %d", vrt_self (), i);
-	nsync_note_free (note[i]);
+	nsync_note_free (N (i));
 	vrt_note ("ret %d -", vrt_self ());
 }
 
@@ -85,44 +124,181 @@ static void check_cause (int i) {
 	}
 	vrt_fail ("C08", "note %d is observed notified at %lld although nsync_note_notify was called on no note of its path and no deadline on the path has passed", i, (long long) now);
 }
+/* no notification of note j or of one of its creation-path ancestors is in progress: no nsync_note_notify call, and no poll / wait that
+   could be carrying out a deadline-driven one */
+static int quiet (int j) {
+	int k;
+	for (k = j; k >= 0; k = parent_of[k]) if (vrt_sh_get (NINPROG (k)) != 0 || vrt_sh_get (POLLING (k)) != 0) return 0;
+	return 1;
+}
+/* completeness: the reason why note i must be reported notified by a call that starts now (only events that have COMPLETED count), or NULL */
+static const char *must_be_notified (int i) {
+	int j;
+	int64_t now = vrt_now_ns ();
+	if (vrt_sh_get (SEEN (i))) return "an observation of it as notified had completed";
+	if (vrt_sh_get (NDONE (i))) return "an nsync_note_notify of it had returned";
+	for (j = i; j >= 0; j = parent_of[j]) if (dabs[j] < now) return "a deadline on its creation path had passed";
+	for (j = parent_of[i]; j >= 0; j = parent_of[j])
+		if (vrt_sh_get (NDONE (j)) && quiet (j)) return "an nsync_note_notify of an ancestor had returned and no notification of that ancestor was in progress";
+	return NULL;
+}
+/* C03: note d has just been observed notified by this thread.  If the only possible cause is ONE nsync_note_notify call (exactly one
+   call started on the whole creation path, no deadline of the path reached yet), read the payload its caller wrote beforehand */
+static void read_payload (int d) {
+	int j, cause = -1, n = 0;
+	int64_t now = vrt_now_ns ();
+	for (j = d; j >= 0; j = parent_of[j]) {
+		if (dabs[j] <= now) return;
+		if (vrt_sh_get (NSTARTC (j)) != 0) { n += (int) vrt_sh_get (NSTARTC (j)); cause = j; }
+	}
+	if (n != 1) return;
+	vrt_count ("payload_read");
+	if (payload[cause][vrt_sh_get (NWHO (cause))] != 1) vrt_fail ("RACE", "payload written before nsync_note_notify of note %d is not visible to an observer of note %d", cause, d);
+}
 static void observe (int i) {
 	long seen_before = vrt_sh_get (SEEN (i));   /* only observations that COMPLETED before this call started bind it */
+	const char *why = must_be_notified (i);
 	int v = x_is_notified (i);
 	if (v) check_cause (i);
-	if (v) vrt_sh_set (SEEN (i), 1);
+	if (v) { vrt_sh_set (SEEN (i), 1); read_payload (i); }
 	else if (seen_before) vrt_fail ("C08", "note %d was observed notified and is now observed un-notified", i);
+	else if (why != NULL) vrt_fail ("C08", "nsync_note_is_notified of note %d returned 0 although, before the call started, %s", i, why);
 }
 static void do_notify (int i) {
+	int me = vrt_self (), d, j;
+	payload[i][me] = 1;
+	if (vrt_sh_add (NSTARTC (i), 1) == 1) vrt_sh_set (NWHO (i), me);
 	vrt_sh_set (NSTART (i), 1);
+	vrt_sh_add (NINPROG (i), 1);
 	x_notify (i);
+	vrt_sh_add (NINPROG (i), -1);
+	if (vrt_sh_add (NDONE (i), 1) == 1) vrt_sh_set (NDONE_AT (i), vrt_now_ns ());
 	if (!x_is_notified (i)) vrt_fail ("C08", "nsync_note_notify returned but note %d is not notified", i);
 	vrt_sh_set (SEEN (i), 1);
 	vrt_count ("notify");
+	/* nsync_note_notify (i) has returned; if no notification of i or of an ancestor is in progress at this instant, every descendant
+	   whose creation has returned is notified at this instant (and for ever after).  Notes that another thread frees are not
+	   touched: the contract forbids it. */
+	if (quiet (i)) {
+		for (d = 0; d < NN; d++) {
+			if (d == i || freeable[d] || !vrt_sh_get (CREATED (d)) || vrt_sh_get (FREEING (d))) continue;
+			for (j = parent_of[d]; j >= 0 && j != i; j = parent_of[j]) { }
+			if (j != i || !published (d)) continue;
+			vrt_count ("desc_checked");
+			if (!x_is_notified (d)) vrt_fail ("C08", "nsync_note_notify of note %d has returned and no notification of it or of an ancestor is in progress, but its descendant %d is not notified", i, d);
+			vrt_sh_set (SEEN (d), 1);
+		}
+	}
 }
 static void do_wait (int i, int timed) {
 	nsync_time dl = nsync_time_no_deadline;
-	int r;
-	if (timed) dl = vrt_abs ((int64_t) vrt_rand (5) * 900 - 900);
+	const char *why;
+	int64_t dlns = INT64_MAX;
+	int r, j;
+	if (timed) { dl = vrt_abs ((int64_t) vrt_rand (5) * 900 - 900); dlns = ts_ns (dl); }
+	why = must_be_notified (i);
 	r = x_wait (i, dl);
-	if (r) { check_cause (i); vrt_sh_set (SEEN (i), 1); vrt_count ("wait_notified"); if (!x_is_notified (i)) vrt_fail ("C08", "wait said notified, poll says not"); }
+	if (r) { check_cause (i); vrt_sh_set (SEEN (i), 1); vrt_count ("wait_notified"); if (!x_is_notified (i)) vrt_fail ("C08", "wait said notified, poll says not"); read_payload (i); }
 	else {
 		vrt_count ("wait_timeout");
 		if (!timed) vrt_fail ("C08", "wait without deadline returned 0");
-		if (vrt_now_ns () < ts_ns (dl)) vrt_fail ("C08", "note wait timed out before its deadline");
+		if (vrt_now_ns () < dlns) vrt_fail ("C08", "note wait timed out before its deadline");
+		if (why != NULL) vrt_fail ("C08", "nsync_note_wait of note %d returned 0 although, before the call started, %s", i, why);
+		/* what completed strictly before the wait's own deadline forbids the timeout result too */
+		if (vrt_sh_get (NDONE_AT (i)) != 0 && vrt_sh_get (NDONE_AT (i)) < dlns)
+			vrt_fail ("C08", "nsync_note_wait of note %d returned 0 at its deadline %lld although an nsync_note_notify of it had returned at %ld", i, (long long) dlns, vrt_sh_get (NDONE_AT (i)));
+		for (j = i; j >= 0; j = parent_of[j]) if (dabs[j] < dlns)
+			vrt_fail ("C08", "nsync_note_wait of note %d returned 0 at its deadline %lld although the deadline %lld of note %d on its creation path is earlier", i, (long long) dlns, (long long) dabs[j], j);
 	}
 }
+
+/* ---- nsync_note_expiry: the set of values the property text allows, from the deadlines the harness itself passed ---- */
+static int64_t cand[NN][8];
+static int ncand[NN];
+static int64_t exp0[NN];           /* the value nsync_note_expiry gave right after creation */
+static void add_cand (int i, int64_t v) {
+	int k;
+	for (k = 0; k < ncand[i]; k++) if (cand[i][k] == v) return;
+	if (ncand[i] < 8) cand[i][ncand[i]++] = v;
+}
+static int64_t min64 (int64_t a, int64_t b) { return a < b ? a : b; }
+static int64_t tns (nsync_time t) { return nsync_time_cmp (t, nsync_time_no_deadline) == 0 ? INT64_MAX : ts_ns (t); }
+/* may_be_notified / may_be_unnotified: what the parent's state at the creation may have been */
+static void expiry_candidates (int i, int may_be_notified, int may_be_unnotified) {
+	int j, k, par = parent_of[i];
+	int64_t lit = INT64_MAX;
+	ncand[i] = 0;
+	for (j = i; j >= 0; j = parent_of[j]) lit = min64 (lit, dabs[j]);
+	add_cand (i, lit);                                           /* the literal minimum of the deadlines from the note to the root */
+	if (par >= 0) {
+		if (may_be_notified) add_cand (i, min64 (dabs[i], 0));      /* a notified parent counts as zero */
+		if (may_be_unnotified) for (k = 0; k < ncand[par]; k++) add_cand (i, min64 (dabs[i], cand[par][k]));
+	}
+}
+static void check_expiry (int i, const char *when) {
+	int k, ok = 0, par = parent_of[i];
+	int64_t e = tns (x_expiry (i));
+	for (k = 0; k < ncand[i]; k++) ok |= cand[i][k] == e;
+	if (!ok) vrt_fail ("C08", "nsync_note_expiry of note %d %s is %lld: not the minimum of the deadlines on its path to the root (own deadline %lld, literal minimum %lld)",
+			   i, when, (long long) e, (long long) dabs[i], (long long) cand[i][0]);
+	if (par >= 0 && exp0[par] >= 0 && e > exp0[par]) vrt_fail ("C08", "nsync_note_expiry of note %d (%lld) is later than its parent's (%lld)", i, (long long) e, (long long) exp0[par]);
+	exp0[i] = e;
+}
+
 static void t_notify (void *a) { do_notify ((int) (long) a); }
 static void t_poll (void *a) { int i = (int) (long) a, k; for (k = 0; k < 3; k++) { observe (i); vrt_point ("poll"); } }
 static void t_wait (void *a) { int i = (int) (long) a; do_wait (i & 7, i >> 3); }
-static void t_free (void *a) { int i = (int) (long) a; x_free (i); vrt_sh_set (FREED (i), 1); vrt_count ("free"); }
+static void t_free (void *a) { int i = (int) (long) a; vrt_sh_set (FREEING (i), 1); x_free (i); vrt_sh_set (FREED (i), 1); vrt_count ("free"); }
+/* creates note[slot] (by the calling thread, which is the only one that allocates at this time) under the parent and with the deadline
+   that main has drawn (parent_of[], dabs[] and plan_dl[] are written by main only), and checks its expiry */
+static nsync_time plan_dl[NN];
+static int plan_free[NN];
+static void plan_child (int slot, int par, nsync_time dl) { parent_of[slot] = par; plan_dl[slot] = dl; dabs[slot] = nsync_time_cmp (dl, nsync_time_no_deadline) == 0 ? INT64_MAX : ts_ns (dl); }
+static void create_child (int slot) {
+	int j, started = 0, par = parent_of[slot];
+	int64_t t1;
+	note[slot] = x_new (par, plan_dl[slot]);
+	vrt_sh_set (NPTR (slot), (long) note[slot]);
+	t1 = vrt_now_ns ();
+	publish (slot);
+	vrt_sh_set (CREATED (slot), 1);
+	/* the parent may have been notified at the creation if a notify had started on its path or a deadline of its path had been reached */
+	for (j = par; j >= 0; j = parent_of[j]) if (vrt_sh_get (NSTART (j)) || dabs[j] <= t1) started = 1;
+	expiry_candidates (slot, started, 1);
+	check_expiry (slot, "right after its creation");
+}
 static void t_newchild (void *a) {
-	int par = (int) (long) a;
-	nsync_time dl = vrt_rand (2) ? nsync_time_no_deadline : vrt_abs (3000);
-	dabs[NEWC] = nsync_time_cmp (dl, nsync_time_no_deadline) == 0 ? INT64_MAX : ts_ns (dl);
-	parent_of[NEWC] = par;
-	note[NEWC] = x_new (par, dl);
+	create_child (NEWC);
 	observe (NEWC);
 	vrt_count ("newchild");
+}
+/* FAMILY 4: one creator makes one or two children under notes whose ancestors are being notified / freed, observes them and
+   frees some of them itself (nobody else touches them) */
+static int creator_n;
+static void plan_creator (int npar, int p0, int p1) {
+	int k;
+	creator_n = 1 + (int) vrt_rand (2);
+	for (k = 0; k < creator_n; k++) {
+		int kd = (int) vrt_rand (4);
+		nsync_time dl = kd == 0 ? nsync_time_no_deadline : kd == 1 ? vrt_abs (3000) : kd == 2 ? vrt_abs (-300 - 10 * k) : vrt_abs (500 + 400 * (int64_t) vrt_rand (6) + k);
+		plan_child (NEWC + k, vrt_rand (npar) == 0 ? p0 : p1, dl);
+		plan_free[NEWC + k] = (int) vrt_rand (2);
+		freeable[NEWC + k] = 1;      /* its creator may free it at any time: no other thread touches it */
+	}
+}
+static void t_creator (void *a) {
+	int n = creator_n, k;
+	for (k = 0; k < n; k++) {
+		int slot = NEWC + k;
+		create_child (slot);
+		observe (slot);
+		vrt_point ("creator");
+		if (vrt_rand (2)) observe (slot);
+		vrt_count ("newchild");
+	}
+	for (k = 0; k < n; k++) if (plan_free[NEWC + k]) {
+		vrt_sh_set (FREEING (NEWC + k), 1); x_free (NEWC + k); vrt_sh_set (FREED (NEWC + k), 1); vrt_count ("free_child");
+	}
 }
 static void t_busy_parent (void *a) {
 	int i = (int) (long) a, k;
@@ -142,44 +318,45 @@ static void t_busy_parent (void *a) {
 		else observe (i);
 	}
 }
+/* future deadlines are distinct per note, so that parent-earlier-than-child and parent-later-than-child both occur; so are the past ones */
 static nsync_time mk_dl (int i) {
 	int k = (int) vrt_rand (4);
-	dl_of[i] = k == 0 ? 1500 : k == 1 ? -500 : -1;      /* future, past, none, none */
-	return dl_of[i] < 0 && k != 1 ? nsync_time_no_deadline : vrt_abs (dl_of[i]);
+	dl_of[i] = k == 0 ? 700 + 400 * (int64_t) vrt_rand (6) + i : k == 1 ? -500 - 40 * (int64_t) vrt_rand (4) - i : -1;      /* future, past, none, none */
+	return k >= 2 ? nsync_time_no_deadline : vrt_abs (dl_of[i]);
 }
 
 int main (void) {
-	int fam = vrt_opt ("FAMILY", (int) vrt_rand (4));
-	int i;
-	nsync_time d[NN], e;
+	int i, prepoll;
+	nsync_time d[NN];
+	fam = vrt_opt ("FAMILY", (int) vrt_rand (5));
+	prepoll = (int) vrt_rand (2);   /* polling the parent around the creation sets its notified flag when its deadline has passed: in the other
+	                                    half of the runs nsync_note_new meets parents whose deadline has passed but whose flag is not set */
+	for (i = 0; i < NN; i++) dabs[i] = INT64_MAX;
 	/* build P -> C -> G, P -> S and check expiry = min over the creation path */
 	for (i = 0; i < 4; i++) {
+		int par = parent_of[i], j, pn0 = 0, pn1 = 0;
+		int64_t t1, pd = INT64_MAX;
 		d[i] = (fam == 2 && i == P) ? vrt_abs (800) : ((fam == 1 || fam == 3) ? nsync_time_no_deadline : mk_dl (i));
-		{
-			/* expiry = min (own deadline, the parent's notification time at creation), a notified parent counting as zero --
-			   for EVERY note, also one whose own deadline has already passed (F12) */
-			int pn0 = parent_of[i] >= 0 ? x_is_notified (parent_of[i]) : 0, pn1, k, ok = 0;
-			dabs[i] = nsync_time_cmp (d[i], nsync_time_no_deadline) == 0 ? INT64_MAX : ts_ns (d[i]);
-			note[i] = x_new (parent_of[i], d[i]);
-			pn1 = parent_of[i] >= 0 ? x_is_notified (parent_of[i]) : 0;
-			for (k = 0; k < 2 && !ok; k++) {
-				e = d[i];
-				if (parent_of[i] >= 0) {
-					nsync_time pe = (k == 0 ? pn0 : pn1) ? nsync_time_zero : x_expiry (parent_of[i]);
-					if (nsync_time_cmp (pe, e) < 0) e = pe;
-				}
-				ok = nsync_time_cmp (x_expiry (i), e) == 0;
-			}
-			if (!ok) vrt_fail ("C08", "nsync_note_expiry of note %d is not the minimum of the deadlines on its path to the root", i);
-			if (parent_of[i] >= 0 && nsync_time_cmp (x_expiry (i), x_expiry (parent_of[i])) > 0)
-				vrt_fail ("C08", "nsync_note_expiry of note %d is later than its parent's", i);
-		}
+		if (par >= 0 && prepoll) pn0 = x_is_notified (par);
+		dabs[i] = tns (d[i]);
+		note[i] = x_new (par, d[i]);
+		t1 = vrt_now_ns ();
+		vrt_sh_set (CREATED (i), 1);
+		if (par >= 0 && prepoll) pn1 = x_is_notified (par);
+		for (j = par; j >= 0; j = parent_of[j]) pd = min64 (pd, dabs[j]);
+		/* nobody calls nsync_note_notify here: the parent is notified exactly when a deadline on its path has passed.  With the polls
+		   around the creation we know what the library thought; without them both readings of a parent whose deadline has
+		   passed are accepted */
+		if (prepoll) expiry_candidates (i, pn0 || pn1, !pn0);
+		else expiry_candidates (i, pd <= t1, 1);
+		check_expiry (i, "right after its creation");
 	}
 	if (fam == 0) {
+		freeable[C] = 1;
 		vrt_thread ("nP", t_notify, (void *) (long) P);
 		vrt_thread ("fC", t_free, (void *) (long) C);
 		vrt_thread (vrt_rand (2) ? "pG" : "wG", vrt_rand (2) ? t_poll : t_wait, (void *) (long) G);
-		if (vrt_rand (2)) vrt_thread ("new", t_newchild, (void *) (long) P);
+		if (vrt_rand (2)) { plan_child (NEWC, P, vrt_rand (2) ? nsync_time_no_deadline : vrt_abs (3000)); vrt_thread ("new", t_newchild, (void *) (long) P); }
 		if (vrt_rand (2)) vrt_thread ("pS", t_poll, (void *) (long) S);
 	} else if (fam == 3) {
 		/* two notifiers of one child while the parent's lock is kept busy by a third thread (new children / polls of the parent) */
@@ -188,10 +365,34 @@ int main (void) {
 		vrt_thread ("busyP", t_busy_parent, (void *) (long) P);
 		if (vrt_rand (2)) vrt_thread ("pC", t_poll, (void *) (long) C);
 	} else if (fam == 1) {
+		freeable[P] = 1;
 		vrt_thread ("nC1", t_notify, (void *) (long) C);
 		vrt_thread ("nC2", t_notify, (void *) (long) C);
 		vrt_thread ("fP", t_free, (void *) (long) P);
 		if (vrt_rand (2)) vrt_thread ("wG", t_wait, (void *) (long) (G | (vrt_rand (2) << 3)));
+	} else if (fam == 4) {
+		int sub = (int) vrt_rand (3);
+		if (sub == 0) {
+			plan_creator (2, C, G);
+			vrt_thread ("nP", t_notify, (void *) (long) P);
+			vrt_thread ("cr", t_creator, NULL);
+			if (vrt_rand (2)) vrt_thread ("wG", t_wait, (void *) (long) (G | (vrt_rand (2) << 3))); else vrt_thread ("pG", t_poll, (void *) (long) G);
+			if (vrt_rand (2)) vrt_thread ("pS", t_poll, (void *) (long) S);
+		} else if (sub == 1) {
+			plan_creator (1, G, G);
+			freeable[C] = 1;
+			if (vrt_rand (4) != 0) vrt_thread ("nP", t_notify, (void *) (long) P);
+			vrt_thread ("fC", t_free, (void *) (long) C);
+			vrt_thread ("cr", t_creator, NULL);
+			if (vrt_rand (2)) vrt_thread ("pS", t_poll, (void *) (long) S);
+		} else {
+			plan_creator (2, C, G);
+			freeable[P] = 1;
+			vrt_thread ("fP", t_free, (void *) (long) P);
+			vrt_thread ("nC", t_notify, (void *) (long) C);
+			vrt_thread ("cr", t_creator, NULL);
+			if (vrt_rand (2)) vrt_thread ("wG", t_wait, (void *) (long) (G | (vrt_rand (2) << 3)));
+		}
 	} else {
 		vrt_thread ("wC", t_wait, (void *) (long) (C | (vrt_rand (2) << 3)));
 		vrt_thread ("wG", t_wait, (void *) (long) G);
@@ -201,20 +402,28 @@ int main (void) {
 	vrt_run ();
 	/* end of run: no notification is in progress any more */
 	for (i = 0; i < NN; i++) {
-		int j, anc_notified = 0, cause = 0;
+		int j, cause = 0;
 		if (note[i] == NULL || vrt_sh_get (FREED (i))) continue;
 		for (j = i; j >= 0; j = parent_of[j]) {
 			if (vrt_sh_get (NSTART (j)) || dabs[j] <= vrt_now_ns ()) cause = 1;
-			if (j != i && !vrt_sh_get (FREED (j)) && note[j] != NULL && vrt_sh_get (NSTART (j))) anc_notified = 1;
-			if (j != i && vrt_sh_get (FREED (j)) && vrt_sh_get (NSTART (j))) anc_notified = 0;
 		}
-		/* descendants of a note whose nsync_note_notify has returned are notified (adopted grandchildren included) */
+		/* descendants of a note whose nsync_note_notify has returned are notified (adopted grandchildren and children created
+		   while the notification ran included) */
 		for (j = parent_of[i]; j >= 0; j = parent_of[j]) {
-			if (vrt_sh_get (NSTART (j)) && i != NEWC) {
+			if (vrt_sh_get (NSTART (j))) {
 				if (!x_is_notified (i)) vrt_fail ("C08", "note %d is a descendant of note %d whose notify has returned, but it is not notified", i, j);
 			}
 		}
+		/* so are those on whose path a deadline has passed */
+		for (j = i; j >= 0; j = parent_of[j])
+			if (dabs[j] < vrt_now_ns () && !x_is_notified (i)) vrt_fail ("C08", "the deadline of note %d on the creation path of note %d has passed, but it is not notified", j, i);
 		if (x_is_notified (i) && !cause) vrt_fail ("C08", "note %d is notified although neither it nor an ancestor was notified or had a deadline", i);
+		/* the expiry of a live note never changes */
+		{
+			int64_t e0 = exp0[i];
+			check_expiry (i, "at the end of the run");
+			if (exp0[i] != e0) vrt_fail ("C08", "nsync_note_expiry of note %d changed from %lld to %lld", i, (long long) e0, (long long) exp0[i]);
+		}
 	}
 	printf ("VRT-END ok\n");
 	return 0;
